@@ -62,6 +62,26 @@ def rule_bind(ctx):
         for c in calls_in(f.node, "map"):
             if norm(c.func) != "self.map" or not c.args:
                 continue
+            # the caller's selection (start, end, files, filters ... in **kwargs) reaches map as a whole: map() ignores every find argument
+            # once an explicit file list is given, so a list searched here without the filters drops the selection
+            kwn = f.node.args.kwarg.arg if f.node.args.kwarg else None
+            if kwn is not None:
+                stars = [str(norm(k_.value)) for k_ in c.keywords if k_.arg is None]
+                fkw = [k_.value for k_ in c.keywords if k_.arg == "files"]
+                lost = None
+                if kwn not in stars:
+                    lost = "**%s is not passed on" % kwn
+                for fv in fkw:
+                    src = flow.resolve(fv, at=c, depth=3, stop=(kwn,))
+                    finds = [x_ for x_ in ast.walk(src) if isinstance(x_, ast.Call) and norm(x_.func) == "self.find"]
+                    finds += [x_ for d_ in (flow.defs(fv.id, c) if isinstance(fv, ast.Name) else []) if d_ != "param" and isinstance(d_, ast.Assign)
+                              for x_ in ast.walk(d_.value) if isinstance(x_, ast.Call) and norm(x_.func) == "self.find"]
+                    for fc in finds:
+                        if kwn not in [str(norm(k_.value)) for k_ in fc.keywords if k_.arg is None]:
+                            lost = "files=%s comes from %s, which does not receive **%s (filters are ignored by map once files are given)" % (norm(fv), norm(fc)[:60], kwn)
+                ctx.ob("FileSet.%s.selection" % caller, lost is None, "%s%s" % (norm(c)[:90], ("; " + lost) if lost else ""),
+                       "self.map(worker, kwargs=..., **kwargs): period, file list and filters of the caller select the files", node=c, func=f,
+                       witness=None if lost is None else {"move": "filters={'sat': 'a'}", "moved": "every file of the period"})
             cands = [c.args[0]]
             if isinstance(c.args[0], ast.Name):
                 cands = [flow._def_value(d_, c.args[0].id) for d_ in flow.defs(c.args[0].id, c) if d_ != "param"]
@@ -557,6 +577,8 @@ def rule_ncread(ctx):
 
 
 def run(ctx):
+    from ..calendar_rule import rule_leap
+    ctx.attempt(rule_leap, ctx, "C11.calendar", ['typhon/files/fileset.py'])
     for r in (rule_bind, rule_delete, rule_move, rule_write, rule_handlers, rule_items, rule_ncmode, rule_ncread):
         ctx.attempt(r, ctx)
     from ..purity import rule_pure
